@@ -46,6 +46,11 @@ def compare_views(model, iso, namespaces=None, skip_iso_if_relocated=True, count
             continue
         if counters is not None:
             counters['view_entries'] = counters.get('view_entries', 0) + len(av)
+        if not model.relocation_active() and model.rr_moved is None:
+            for k_, d_ in apiview.consistency(iso, ns, av):
+                problems.append((k_, d_))
+            if counters is not None:
+                counters['api_consistency_views'] = counters.get('api_consistency_views', 0) + 1
         for p in sorted(set(mv) - set(av)):
             problems.append(('view:%s:missing' % ns, '%s (%s) not shown by the API' % (p, mv[p][0])))
         for p in sorted(set(av) - set(mv)):
